@@ -137,3 +137,26 @@ Definition delta (i j : nat) : Q := if (i =? j)%nat then 1 else 0.
 Definition is_ident_rowb (S s : nat) (row : list Q) : bool :=
   (length row =? S)%nat &&
   forallb (fun p => Qeq_bool (snd p) (delta (fst p) s)) (combine (seq 0 S) row).
+
+(* ------------------------------------------------------------------ cooperative (factored) experience *)
+(* per-node history: (row id, next value of the feature, reward of the feature) *)
+Definition rrec : Type := (nat * nat * Q)%type.
+Definition row_rewards (h : list rrec) (id : nat) : list Q :=
+  map snd (filter (fun x => (fst (fst x) =? id)%nat) h).
+Definition row_count (h : list rrec) (id v : nat) : nat :=
+  length (filter (fun x => (fst (fst x) =? id)%nat && (snd (fst x) =? v)%nat) h).
+
+Definition crec : Type := (list nat * list nat * list nat * list Q)%type.   (* s, a, s1, rewards *)
+Definition chist_step (h : list crec) (o : cop) : list crec :=
+  match o with CRecord s a s1 rw => h ++ [(s, a, s1, rw)] | CReset => [] end.
+Definition chist_of (ops : list cop) : list crec := fold_left chist_step ops [].
+(* what node i sees of a joint record *)
+Definition cproj (g : cgraph) (i : nat) (x : crec) : rrec :=
+  let '(s, a, s1, rw) := x in (cg_id g i s a, nth i s1 0%nat, nth i rw 0).
+(* in range: the row exists and the next value is a value of the feature *)
+Definition cop_ok (g : cgraph) (o : cop) : bool :=
+  match o with
+  | CRecord s a s1 rw => forallb (fun i => (cg_id g i s a <? cg_size g i)%nat && (nth i s1 0 <? nth i (cgS g) 0)%nat)
+                                 (seq 0 (length (cgS g)))
+  | CReset => true
+  end.
